@@ -408,3 +408,78 @@ def rule_call_time_params(rule, repo, files=None):
     rule.ok('reads-in-function-bodies', '', '%d reads of the selected-chain globals, all evaluated at call time' % n_body)
     rule.note('%d call-time reads' % n_body)
     return n_body
+
+
+# ------------------------------------------------------------------------------------------------ small-function shapes
+def _boolish(e):
+    if isinstance(e, (ast.Compare, ast.BoolOp)):
+        return True
+    if isinstance(e, ast.UnaryOp) and isinstance(e.op, ast.Not):
+        return True
+    if isinstance(e, ast.Constant) and isinstance(e.value, bool):
+        return True
+    if isinstance(e, ast.Call):
+        f = e.func
+        name = f.id if isinstance(f, ast.Name) else (f.attr if isinstance(f, ast.Attribute) else '')
+        return name in ('isinstance', 'bool', 'all', 'any', 'hasattr', 'callable') or name.startswith(('is_', 'has_', 'Is'))
+    return False
+
+
+def _neg(e):
+    if isinstance(e, ast.UnaryOp) and isinstance(e.op, ast.Not):
+        return e.operand
+    return ast.copy_location(ast.UnaryOp(op=ast.Not(), operand=e), e)
+
+
+def _ifexp(test, a, b):
+    ta = isinstance(a, ast.Constant) and a.value is True
+    fa = isinstance(a, ast.Constant) and a.value is False
+    tb = isinstance(b, ast.Constant) and b.value is True
+    fb = isinstance(b, ast.Constant) and b.value is False
+    if _boolish(test):
+        if ta and fb:
+            return test
+        if fa and tb:
+            return _neg(test)
+        if fb and _boolish(a):
+            return ast.copy_location(ast.BoolOp(op=ast.And(), values=[test, a]), test)
+        if ta and _boolish(b):
+            return ast.copy_location(ast.BoolOp(op=ast.Or(), values=[test, b]), test)
+        if fa and _boolish(b):
+            return ast.copy_location(ast.BoolOp(op=ast.And(), values=[_neg(test), b]), test)
+        if tb and _boolish(a):
+            return ast.copy_location(ast.BoolOp(op=ast.Or(), values=[_neg(test), a]), test)
+    return ast.copy_location(ast.IfExp(test=test, body=a, orelse=b), test)
+
+
+def return_expr(fi_or_node):
+    """The function as ONE returned expression when its body is a tree of if/return (guard clauses, if/else returns,
+    `if c: return False` / `return True`): spellings of one value.  None when the body does anything else."""
+    node = getattr(fi_or_node, 'node', fi_or_node)
+    body = [s for s in node.body if not (isinstance(s, ast.Expr) and isinstance(s.value, ast.Constant))]
+
+    def conv(stmts):
+        if not stmts:
+            return None
+        s = stmts[0]
+        if isinstance(s, ast.Return):
+            return s.value if s.value is not None else ast.copy_location(ast.Constant(value=None), s)
+        if isinstance(s, ast.If):
+            a = conv(list(s.body))
+            if a is None:
+                return None
+            b = conv(list(s.orelse) + list(stmts[1:])) if not s.orelse or True else None
+            if s.orelse:
+                b = conv(list(s.orelse))
+                if b is None:
+                    return None
+            else:
+                b = conv(list(stmts[1:]))
+                if b is None:
+                    return None
+            return _ifexp(s.test, a, b)
+        return None
+    e = conv(body)
+    if e is not None:
+        ast.fix_missing_locations(e)
+    return e
